@@ -67,6 +67,9 @@ func CheckC19(r *Run) int {
 		c.FS.AddFile("/w/out/a.sh", gosym.Conc(staleText))
 		c.FS.AddFile("/w/out/a.bat", gosym.Conc(staleText))
 		c.FS.AddFile("/w/out/bad.sh", gosym.Conc(staleText))
+		c.FS.AddFile("/w/out/a.b.sh", gosym.Conc(staleText))
+		c.FS.AddFile("/w/out/a.b.bat", gosym.Conc(staleText))
+		c.FS.AddFile("/w/out dir/my prog.sh", gosym.Conc(staleText))
 		c.FS.AddFile("/w/in/rel.1.0/build", gosym.Conc(goodProg))
 	}
 	st := r.Eng.Explore(func(c *gosym.Ctx) interface{} {
@@ -303,14 +306,39 @@ func CheckC19(r *Run) int {
 		pkeys = append(pkeys, k)
 	}
 	sort.Strings(pkeys)
-	probed := 0
+	// one probe per combination of option values (flag spelling and order normalised), so that every input/output/target
+	// combination the engine could not decide is run natively
+	bucketSeen := map[string]bool{}
+	var chosen []string
 	for _, k := range pkeys {
-		if probed >= 60 {
+		as := probes[k]
+		var vals []string
+		for i := 1; i < len(as); i++ {
+			a := as[i]
+			if strings.HasPrefix(a, "-") {
+				a = "-" + strings.TrimLeft(a, "-")[:1]
+			}
+			vals = append(vals, a)
+		}
+		bk := strings.Join(vals, "\x00")
+		if bucketSeen[bk] {
+			continue
+		}
+		bucketSeen[bk] = true
+		chosen = append(chosen, k)
+	}
+	probed := 0
+	for _, k := range chosen {
+		if probed >= 400 {
 			break
 		}
 		probed++
 		b := cmdOutcome{Kind: "bad", What: "native probe: output file differs from the library result", Args: probes[k], Lits: map[string]int64{"lit0": 5}}
-		if confirmed, _ := confirmCmd(nat, b); confirmed {
+		confirmed, what := confirmCmd(nat, b)
+		if os.Getenv("VERIF_DEBUG") != "" {
+			fmt.Fprintf(os.Stderr, "probe %q -> %v %s\n", b.Args, confirmed, what)
+		}
+		if confirmed {
 			bads = append(bads, b)
 		}
 	}
@@ -388,7 +416,7 @@ func confirmCmd(nat *Native, b cmdOutcome) (bool, string) {
 		x = "5"
 	}
 	good := strings.ReplaceAll(goodProg, "7000000", x)
-	w := map[string]string{"in/rel.1.0/build": good, "in/a.tsh": good, "in/a.b.tsh": good, "in/noext": good, "in/my prog.tsh": good, "in/bad.tsh": badProg, "in/lexbad.tsh": lexBad, "out/a.sh": staleText, "out/a.bat": staleText, "out/bad.sh": staleText}
+	w := map[string]string{"in/rel.1.0/build": good, "in/a.tsh": good, "in/a.b.tsh": good, "in/noext": good, "in/my prog.tsh": good, "in/bad.tsh": badProg, "in/lexbad.tsh": lexBad, "out/a.sh": staleText, "out/a.bat": staleText, "out/bad.sh": staleText, "out/a.b.sh": staleText, "out/a.b.bat": staleText, "out dir/my prog.sh": staleText}
 	for p, c := range w {
 		os.MkdirAll(filepath.Dir(filepath.Join(dir, p)), 0o777)
 		os.WriteFile(filepath.Join(dir, p), []byte(c), 0o666)
